@@ -73,9 +73,17 @@ PRELUDE = """import collections, dataclasses, datetime, decimal, enum, fractions
 from dataclasses import dataclass, field
 from typing import *
 from typing_extensions import TypedDict, NamedTuple, Literal, Annotated, Self
+from decimal import Decimal
+from fractions import Fraction
+from uuid import UUID
+from ipaddress import IPv4Address, IPv6Address, IPv4Network, IPv6Network, IPv4Interface, IPv6Interface
+from pathlib import PurePosixPath, PurePath, Path
+from collections import OrderedDict, deque, ChainMap, Counter, defaultdict
 from mashumaro import DataClassDictMixin, pass_through
 from mashumaro.config import BaseConfig
 from mashumaro.dialect import Dialect
+inf = float("inf")
+nan = float("nan")
 """
 
 
@@ -326,7 +334,9 @@ class SchemaGen:
                 return self.enum_type()
             if self.o.any_ and r.random() < 0.5:
                 return T("any")
-            return T("none") if r.random() < 0.3 else self.scalar()
+            # a bare None annotation is rejected or treated specially in most positions (None-typed
+            # positions never read their input); it is reachable only through Optional here
+            return self.scalar()
         choices = list(self.o.containers if not self.o.coq_only else COQ_CONTAINERS)
         if self.o.classes:
             choices += ["data", "data"]
@@ -403,6 +413,8 @@ class SchemaGen:
                 spec.fields.append(fs)
                 continue
             ft = self.gen_type(d)
+            if ft.kind == "none":      # a bare None annotation on a dataclass field is rejected by design
+                ft = self.scalar()
             fs = FieldSpec(f"f{i}", ft)
             if seen_default or r.random() < 0.3:
                 dv = self.simple_default(ft)
@@ -809,3 +821,80 @@ def reachable_classes(t: T, fam: Family) -> tuple[list[str], list[str]]:
                 ens.append(n.name)
     go(t)
     return dcs, ens
+
+
+# ---------------------------------------------------------------------------
+# eval-able source of a value (for replay files)
+# ---------------------------------------------------------------------------
+
+def py_src(v) -> str:
+    if isinstance(v, enum.Enum):
+        return f"{type(v).__name__}.{v.name}"
+    if isinstance(v, float):
+        if v != v:
+            return "nan"
+        if v in (float("inf"), float("-inf")):
+            return "inf" if v > 0 else "-inf"
+        return repr(v)
+    if dataclasses.is_dataclass(v) and not isinstance(v, type):
+        return f"{type(v).__name__}(" + ", ".join(f"{f.name}={py_src(getattr(v, f.name))}" for f in dataclasses.fields(v)) + ")"
+    if isinstance(v, tuple) and hasattr(v, "_fields"):
+        return f"{type(v).__name__}(" + ", ".join(py_src(x) for x in v) + ")"
+    if type(v) is list:
+        return "[" + ", ".join(py_src(x) for x in v) + "]"
+    if type(v) is tuple:
+        return "(" + ", ".join(py_src(x) for x in v) + ("," if len(v) == 1 else "") + ")"
+    if type(v) is set:
+        return "{" + ", ".join(py_src(x) for x in v) + "}" if v else "set()"
+    if type(v) is frozenset:
+        return "frozenset([" + ", ".join(py_src(x) for x in v) + "])"
+    if type(v) is collections.deque:
+        return "deque([" + ", ".join(py_src(x) for x in v) + "])"
+    if type(v) is collections.OrderedDict:
+        return "OrderedDict([" + ", ".join(f"({py_src(k)}, {py_src(x)})" for k, x in v.items()) + "])"
+    if type(v) is collections.ChainMap:
+        return "ChainMap(" + ", ".join(py_src(m) for m in v.maps) + ")"
+    if type(v) is collections.Counter:
+        return "Counter({" + ", ".join(f"{py_src(k)}: {py_src(x)}" for k, x in v.items()) + "})"
+    if isinstance(v, dict):
+        return "{" + ", ".join(f"{py_src(k)}: {py_src(x)}" for k, x in v.items()) + "}"
+    return repr(v)
+
+
+def replay_generic(rep: dict) -> int:
+    """re-run a recorded case against the implementation; 1 = the failure reproduces"""
+    ns = build_module(rep["source"])
+    ty = eval(rep["type"], dict(ns)) if rep.get("type") else None
+    if rep.get("type") == "None":
+        ty = type(None)
+    val = eval(rep["input_src"], dict(ns)) if "input_src" in rep else None
+    from mashumaro.codecs.basic import BasicDecoder, BasicEncoder
+    entry = rep["entry"]
+    try:
+        if entry == "codec_encode":
+            got = BasicEncoder(ty).encode(val)
+        elif entry == "codec_decode":
+            got = BasicDecoder(ty).decode(val)
+        elif entry == "codec_roundtrip":
+            got = BasicDecoder(ty).decode(BasicEncoder(ty).encode(val))
+        elif entry == "mixin_to_dict":
+            got = val.to_dict()
+        elif entry == "mixin_from_dict":
+            got = ty.from_dict(val)
+        elif entry == "mixin_roundtrip":
+            got = type(val).from_dict(val.to_dict())
+        else:
+            print("unknown entry", entry)
+            return 2
+        obs = "ok:" + py_src(got)
+    except Exception as e:
+        obs = f"exc:{type(e).__name__}"
+    print("entry   :", entry, rep.get("type"))
+    print("input   :", rep.get("input_src"))
+    print("observed:", obs)
+    print("expected:", rep.get("expected"))
+    if obs != rep.get("expected"):
+        print("REPRODUCED (observed differs from the expected outcome)")
+        return 1
+    print("not reproduced")
+    return 0
